@@ -26,6 +26,23 @@ DEFECT_NAMES = ["ffill-anchored-to-first-iterated-subdir", "empty-first-subdir-i
 
 def regenerate(res):
     _c15.regenerate(res)
+    regenerate_listslice(res)
+
+
+def regenerate_listslice(res):
+    """T14: list_drf._decorated_list_slice -> coq/Gen/ListSliceGen.v"""
+    import listslice2gallina
+    try:
+        text = listslice2gallina.translate(common.REPO)
+    except listslice2gallina.Unsupported as e:
+        res.broken.append({"what": "T14 translator: _decorated_list_slice left the supported statement forms", "log": str(e)})
+        return
+    except Exception as e:  # noqa
+        res.broken.append({"what": "T14 translator failed", "log": repr(e)})
+        return
+    common.write_if_changed(os.path.join(common.COQ, "Gen", "ListSliceGen.v"), text)
+    res.trusted.append("translate/listslice2gallina.py (Python ast of _decorated_list_slice -> Gallina, fail-closed); "
+                       "bisect.bisect_left assumed to meet its specification (Model/ListSliceBase.v) on lists in ascending order")
 
 
 # ----------------------------------------------------------------------------- trees
@@ -542,6 +559,7 @@ def run(res):
     res.count("vm_compute_crosscheck")
     if vm != ex:
         res.disagree("extracted OCaml vs vm_compute (listing)", None, vm, ex)
+    slice_leg(res, list_drf)
     res.extra["traces_validated_against_impl"] = res.evaluations
     res.assumptions += [
         "bisect.bisect_left on a list sorted by time returns the first index >= lo whose time is not < x (modelled as such)",
@@ -552,6 +570,54 @@ def run(res):
         "an impossible calendar date in a subdirectory name makes lsdrf raise ValueError (modelled; outside the tree grammar)",
         "name seconds stay below timedelta's limit; paths are ASCII",
     ]
+
+
+def slice_leg(res, list_drf):
+    """the regenerated _decorated_list_slice (Gen/ListSliceGen.v, vm_compute) against the real function on
+    ascending lists of (timedelta, name) with repeated times, bounds at / between / outside the entries,
+    bound 0 (timedelta(0) is falsy) and None"""
+    import datetime
+    rng = res.rng
+    cases, exprs = [], []
+    for _ in range(240 if res.tier == "quick" else 1500):
+        n = rng.choice([0, 1, 2, 3, 5, 8])
+        base = rng.choice([0, 0, 5, 1000])
+        ts = sorted(base + rng.choice([0, 0, 1, 2, 3, 7]) * rng.randrange(0, 4) for _ in range(n))
+        pool = [None, None, 0, base] + ts + [t + 1 for t in ts] + [t - 1 for t in ts if t > 0] + [base + 50]
+        st, en = rng.choice(pool), rng.choice(pool)
+        ff = rng.random() < 0.5
+        cases.append((ts, st, en, ff))
+        o = lambda v: "None" if v is None else "(Some %d)" % v  # noqa
+        exprs.append("(let r := gen_decorated_list_slice [%s] %s %s %s in [Z.of_nat (fst r); Z.of_nat (snd r)])" %
+                     ("; ".join(str(t) for t in ts), o(st), o(en), "true" if ff else "false"))
+    try:
+        rows = common.run_model_vm("From DRF Require Import Gen.ListSliceGen.", exprs)
+    except common.Broken as e:
+        res.broken.append({"what": "regenerated _decorated_list_slice cannot be evaluated", "log": str(e)[-1500:]})
+        return
+    td = lambda v: None if v is None else datetime.timedelta(milliseconds=v)  # noqa
+    for (ts, st, en, ff), row in zip(cases, rows):
+        dl = [(td(t), "f%d" % i) for i, t in enumerate(ts)]
+        sl = list_drf._decorated_list_slice(dl, starttime=td(st), endtime=td(en), ffill=ff)
+        got = [sl.start, sl.stop]
+        res.case(("slice", tuple(ts), st, en, ff), nontrivial=bool(ts))
+        res.count("regenerated-slice-vs-real")
+        # the property itself on this call: entries in [st, en], plus (ffill) the last entry before st when
+        # no entry is stamped exactly st
+        inw = [i for i, t in enumerate(ts) if (st is None or t >= st) and (en is None or t <= en)]
+        exp = set(inw)
+        if ff and st is not None and st not in ts:
+            before = [i for i, t in enumerate(ts) if t < st]
+            if before and (en is None or en >= st or True):
+                exp |= {before[-1]} if (en is None or ts[before[-1]] <= en) else set()
+        sel = set(range(*sl.indices(len(ts))))
+        if row != got:
+            res.disagree("Gen/ListSliceGen.gen_decorated_list_slice vs list_drf._decorated_list_slice",
+                         {"times_ms": ts, "starttime_ms": st, "endtime_ms": en, "ffill": ff}, row, got)
+        if (st is None or en is None or st <= en) and sel != exp:
+            res.violation("slice-not-window-exact", "_decorated_list_slice does not select exactly the entries of the window"
+                          " (plus the forward-fill entry)", {"slice_call": {"times_ms": ts, "starttime_ms": st, "endtime_ms": en, "ffill": ff}},
+                          sorted(exp), sorted(sel))
 
 
 def coq_run_expr(variant, fl, st, en, tree):
